@@ -279,6 +279,9 @@ impl Gen {
 }
 
 fn conc_case(rec: &mut Recorder, m0: &Map, progs: &[Vec<Op>], sched: &[usize]) -> ConcResult {
+    // a writer that blocks while another thread is parked at a pause point (a lock taken around the closure) stops the
+    // scheduler for good: the case is journaled first, so that `check` can name it when the engine has to be killed
+    verif_harness::journal(&[format!("conc|{}|{}|{}", show_map(m0), join(progs.iter().map(|p| join(p.iter().map(show_op), " ")), "/"), join(sched.iter(), " "))]);
     let res = run_conc(m0, progs, sched);
     let case = format!("conc|{}|{}|{}", show_map(m0),
         join(progs.iter().map(|p| join(p.iter().map(show_op), " ")), "/"), join(res.sched.iter(), " "));
@@ -302,6 +305,7 @@ fn conc_case(rec: &mut Recorder, m0: &Map, progs: &[Vec<Op>], sched: &[usize]) -
 /// = number of entries iterated, `is_empty()` accordingly, `get(k)` = the iterated value of k, no key twice. Whatever a
 /// writer keeps besides the published snapshot (a cached length, an index) has to agree with it once nobody writes.
 fn free_case(rec: &mut Recorder, seed: u64, nt: usize, nops: usize) -> bool {
+    verif_harness::journal(&[format!("free|{seed}|{nt}|{nops}")]);
     let map: Arc<FrimMap<u64, u64>> = Arc::new(FrimMap::default());
     let barrier = Arc::new(std::sync::Barrier::new(nt));
     let hs: Vec<_> = (0..nt).map(|t| {
